@@ -1750,7 +1750,10 @@ class Data(BaseCartesianData):
 
         chunk_view = None
         if subset_state:
-            if isinstance(subset_state, SliceSubsetState) and view is None:
+            # For slice subset states we can directly extract the values, but
+            # not if computing the statistic along axes, since the result then
+            # needs to have the full size along the remaining dimensions.
+            if isinstance(subset_state, SliceSubsetState) and view is None and axis is None:
                 mask = None
                 data = subset_state.to_array(self, cid)
             else:
